@@ -343,10 +343,14 @@ def eval_cases(coq_dir, outdir, cases, spec, jobs=16):
 # --------------------------------------------------------------------------- known findings
 
 def known_findings(pid):
-    path = os.path.join(VERIF, 'KNOWN_FINDINGS.json')
-    if not os.path.exists(path):
-        return []
-    return [e for e in json.load(open(path)).get('findings', []) if e.get('property') == pid]
+    """Entries for pid from KNOWN_FINDINGS.json (canonical, committed) and known_findings/<pid>.json."""
+    out = {}
+    for path in (os.path.join(VERIF, 'KNOWN_FINDINGS.json'), os.path.join(VERIF, 'known_findings', pid + '.json')):
+        if os.path.exists(path):
+            for e in json.load(open(path)).get('findings', []):
+                if e.get('property') == pid:
+                    out[e.get('id')] = e
+    return list(out.values())
 
 
 # --------------------------------------------------------------------------- evidence / driver
